@@ -273,7 +273,7 @@ theorem tableRows_ok {vi zz : PV α} {nio : Nat} {z : String} {rows : List (List
 /-- inversion of `mkTable`: what is known about an accepted table -/
 theorem mkTable_ok {d : List (String × PV α)} {z : String} {chk : List α → Except Err Unit}
     {p : Param α} {vals : List α} (h : mkTable d z chk = .ok (p, vals)) :
-    ∃ ios rows, ios.Pairwise (· < ·) ∧ chk vals = .ok () ∧ vals = rows.flatten ∧
+    ∃ ios rows, (ios.map nabs).Pairwise (· < ·) ∧ chk vals = .ok () ∧ vals = rows.flatten ∧
       (∀ row ∈ rows, row.length = ios.length) ∧
       ((rows.length = 1 ∧ p = .tab1 ios (rows.headD [])) ∨
        (∃ vis, rows.length = vis.length ∧ 2 ≤ ios.length ∧ 2 ≤ vis.length ∧
@@ -283,7 +283,7 @@ theorem mkTable_ok {d : List (String × PV α)} {z : String} {chk : List α → 
     simp only [hvi, hio, hz, ex_throw] at h <;> try (simp at h; done)
   rename_i vi io zz
   obtain ⟨ios, hios, h⟩ := ex_bind_eq_ok h
-  by_cases hinc : (!strictlyIncreasing ios) = true
+  by_cases hinc : (!strictlyIncreasing (ios.map nabs)) = true
   · rw [if_pos hinc] at h; simp at h
   · rw [if_neg hinc] at h
     simp only [Bool.not_eq_true', Bool.not_eq_false] at hinc
@@ -323,7 +323,7 @@ theorem mkTable_chk_error {d : List (String × PV α)} {z : String} {chk : List 
   obtain ⟨ios, hios, h⟩ := ex_bind_eq_ok h
   rw [hios]
   simp only [ex_bind_ok]
-  by_cases hinc : (!strictlyIncreasing ios) = true
+  by_cases hinc : (!strictlyIncreasing (ios.map nabs)) = true
   · rw [if_pos hinc] at h; simp at h
   · rw [if_neg hinc] at h ⊢
     obtain ⟨rows, hrows, h⟩ := ex_bind_eq_ok h
@@ -360,11 +360,12 @@ theorem mkTable_missing_key (d : List (String × PV α)) (z : String) (chk : Lis
 theorem mkTable_io_not_increasing {d : List (String × PV α)} {z : String} (chk : List α → Except Err Unit)
     {vi zz : PV α} {l : List (PV α)} {ios : List α}
     (hvi : d.lookup "vi" = some vi) (hio : d.lookup "io" = some (.list l)) (hz : d.lookup z = some zz)
-    (hl : l.mapM (numArg "io") = .ok ios) (h : ¬ ios.Pairwise (· < ·)) : TableRejects (mkTable d z chk) := by
+    (hl : l.mapM (numArg "io") = .ok ios) (h : ¬ (ios.map nabs).Pairwise (· < ·)) :
+    TableRejects (mkTable d z chk) := by
   unfold mkTable
   simp only [hvi, hio, hz, ioAxis, hl, ex_bind_ok]
-  have : strictlyIncreasing ios = false := by
-    cases hs : strictlyIncreasing ios
+  have : strictlyIncreasing (ios.map nabs) = false := by
+    cases hs : strictlyIncreasing (ios.map nabs)
     · rfl
     · exact absurd (strictlyIncreasing_pairwise hs) h
   simp only [this, Bool.not_false, if_true, ex_throw]
@@ -410,7 +411,7 @@ theorem mkTable_shape_mismatch {d : List (String × PV α)} {z : String} (chk : 
     TableRejects (mkTable d z chk) := by
   unfold mkTable
   simp only [hvi, hio, hz, ioAxis, hl, ex_bind_ok]
-  by_cases hinc : (!strictlyIncreasing ios) = true
+  by_cases hinc : (!strictlyIncreasing (ios.map nabs)) = true
   · rw [if_pos hinc]; exact ⟨_, rfl, rfl⟩
   · rw [if_neg hinc]
     obtain ⟨e, he, hc⟩ := tableRows_shape_mismatch (nio := ios.length) z hne hall h
@@ -660,5 +661,56 @@ theorem tab2_unit {xs ys : List α} {f : List (List α)} (g : Grid xs ys f) (dia
     ⟨le_trans (min_le_right _ _) (min_le_left _ _), c01.2⟩
     ⟨le_trans (min_le_right _ _) (min_le_right _ _), c11.2⟩
   exact ⟨lt_of_lt_of_le hlo b1, b2⟩
+
+/-! ### 2-D tables as the constructors accept them (any row order, any signs) -/
+
+theorem exists_upper (vals : List α) : ∃ m, ∀ v ∈ vals, |v| ≤ m := by
+  refine ⟨(vals.map (fun v => |v|)).foldl nmax 0, ?_⟩
+  intro v hv
+  exact (le_foldl_nmax (vals.map (fun v => |v|)) 0).2 |v| (List.mem_map.mpr ⟨v, hv, rfl⟩)
+
+theorem exists_pos_lower {vals : List α} (hne : vals ≠ []) (hpos : ∀ v ∈ vals, 0 < v) :
+    ∃ m, 0 < m ∧ ∀ v ∈ vals, m ≤ v := by
+  cases vals with
+  | nil => exact absurd rfl hne
+  | cons a l =>
+    refine ⟨l.foldl nmin a, ?_, ?_⟩
+    · have : ∀ (l : List α) (b : α), 0 < b → (∀ v ∈ l, 0 < v) → 0 < l.foldl nmin b := by
+        intro l; induction l with
+        | nil => intro b hb _; simpa using hb
+        | cons c l ih =>
+          intro b hb hl
+          simp only [List.foldl_cons, nmin_eq_min]
+          exact ih _ (lt_min hb (hl c (by simp))) (fun v hv => hl v (by simp [hv]))
+      exact this l a (hpos a (by simp)) (fun v hv => hpos v (by simp [hv]))
+    · intro v hv
+      rcases List.mem_cons.mp hv with rfl | hv
+      · exact (foldl_nmin_le l _).1
+      · exact (foldl_nmin_le l _).2 v hv
+
+/-- a rectangular 2-D table with an io axis increasing in magnitude returns non-negative values for every
+    query, every diagonal choice, whatever the order and the signs of its vi rows -/
+theorem tab2_nonneg_any (xs ys : List α) (f : List (List α)) (diag : List (List Bool))
+    (hxs : (xs.map nabs).Pairwise (· < ·)) (hx2 : 2 ≤ xs.length) (hy2 : 2 ≤ ys.length)
+    (hrows : f.length = ys.length) (hcols : ∀ row ∈ f, row.length = xs.length) :
+    (Param.tab2 xs ys f diag).Nonneg := by
+  intro x y
+  obtain ⟨m, hm⟩ := exists_upper f.flatten
+  exact (interp2_bounds xs ys f diag 0 m hxs hx2 hy2 hrows hcols
+    (fun row hr v hv => ⟨abs_nonneg v, hm v (List.mem_flatten.mpr ⟨row, hr, hv⟩)⟩) x y).1
+
+/-- … and values in (0, 1] when all its entries are in (0, 1] -/
+theorem tab2_unit_any (xs ys : List α) (f : List (List α)) (diag : List (List Bool))
+    (hxs : (xs.map nabs).Pairwise (· < ·)) (hx2 : 2 ≤ xs.length) (hy2 : 2 ≤ ys.length)
+    (hrows : f.length = ys.length) (hcols : ∀ row ∈ f, row.length = xs.length)
+    (hne : f.flatten ≠ []) (hf : ∀ v ∈ f.flatten, 0 < v ∧ v ≤ 1) (x y : α) :
+    0 < (Param.tab2 xs ys f diag).interp x y ∧ (Param.tab2 xs ys f diag).interp x y ≤ 1 := by
+  obtain ⟨m, hm0, hm⟩ := exists_pos_lower hne (fun v hv => (hf v hv).1)
+  have := interp2_bounds xs ys f diag m 1 hxs hx2 hy2 hrows hcols
+    (fun row hr v hv => by
+      have hv' := List.mem_flatten.mpr ⟨row, hr, hv⟩
+      rw [abs_of_pos (hf v hv').1]
+      exact ⟨hm v hv', (hf v hv').2⟩) x y
+  exact ⟨lt_of_lt_of_le hm0 this.1, this.2⟩
 
 end SysLoss
